@@ -599,7 +599,9 @@ pub fn generate(prop: &str, rng: &mut crate::rng::Rng, thorough: bool) -> ProofC
         // refutations that need search: colouring a dense graph with too few colours (pairwise
         // not-equals propagate next to nothing), plus one or two constraints of the swarm
         let m = rng.range(4, 6) as usize;
-        let k = rng.range(2, m as i64 - 1) as i32;
+        // (at most three colours: the refutation of a 6-clique with 5 colours takes thousands of
+        // conflicts, and checking its proof minutes)
+        let k = rng.range(2, if m <= 5 { m as i64 - 1 } else { 3 }) as i32;
         vars = (0..m).map(|_| VarDecl::interval(1, k)).collect();
         if rng.chance(0.5) {
             vars.push(VarDecl::boolean());
